@@ -580,8 +580,26 @@ bool setData(Obj& obj, const json& op, Out& o)
     return false;
 }
 
+// values derived from several fields (no setter of their own)
+void logDerived(Out& o, const Obj& obj)
+{
+    if (const auto* t = dynamic_cast<const TecmpCmObj*>(&obj))
+    {
+        const std::string sw = t->p->getSwVersion(), hw = t->p->getHwVersion();
+        o.obj("derived");
+        o.bytes("swVersion", reinterpret_cast<const uint8_t*>(sw.data()), sw.size());
+        o.bytes("hwVersion", reinterpret_cast<const uint8_t*>(hw.data()), hw.size());
+        o.end();
+    }
+    else if (const auto* y = dynamic_cast<const PayloadTypeObj*>(&obj))
+    {
+        o.obj("derived").kv("isValid", y->t.isValid()).end();
+    }
+}
+
 void logObj(Out& o, const Obj& obj)
 {
+    logDerived(o, obj);
     o.bytes("raw", obj.raw());
     o.obj("get");
     for (const auto& a : obj.acc)
